@@ -31,7 +31,23 @@ theorem wCP_two (e : Enc) (thr : Bool) (c : Nat) (rest : List Nat) (it : List It
     (h : wCP e thr c rest = .ok (it, true)) : ∃ l r, rest = l :: r ∧ isLow l = true := by
   unfold wCP at h
   cases hk : e.kind with
-  | utf16 => rw [hk] at h; simp only at h; injection h with h; injection h with _ h2; cases h2
+  | utf16 =>
+    rw [hk] at h
+    simp only at h
+    cases hf : e.fx.utf16Pairs with
+    | false => rw [hf] at h; simp only [Bool.false_eq_true, ↓reduceIte] at h; injection h with h; injection h with _ h2; cases h2
+    | true =>
+      rw [hf] at h
+      simp only [↓reduceIte, bind, Except.bind] at h
+      cases hd : decodeHead c rest with
+      | error er => rw [hd] at h; cases h
+      | ok p =>
+        obtain ⟨v, two⟩ := p
+        rw [hd] at h
+        simp only at h
+        cases two with
+        | true => exact decodeHead_two c rest v hd
+        | false => simp only [pure, Except.pure] at h; injection h with h; injection h with _ h2; cases h2
   | utf8 =>
     rw [hk] at h
     simp only [bind, Except.bind] at h
@@ -71,13 +87,18 @@ theorem wCP_two (e : Enc) (thr : Bool) (c : Nat) (rest : List Nat) (it : List It
 theorem wNCB_two (ver : Ver) (e : Enc) (c : Nat) (rest : List Nat) (it : List Item)
     (h : writeNormalizedCharBig ver e c rest = .ok (it, true)) : ∃ l r, rest = l :: r ∧ isLow l = true := by
   unfold writeNormalizedCharBig at h
-  by_cases h28 : ver = .v11 ∧ c = 0x2028
-  · rw [if_pos h28] at h
-    simp only [bind, Except.bind] at h
-    cases hf : fNCR e c with
-    | error er => rw [hf] at h; cases h
-    | ok a => rw [hf] at h; simp only [pure, Except.pure] at h; injection h with h; injection h with _ h2; cases h2
-  · rw [if_neg h28] at h; exact wCP_two e false c rest it h
+  simp only [bind, Except.bind] at h
+  cases hn : notCharCheck e c with
+  | error er => rw [hn] at h; cases h
+  | ok u =>
+    rw [hn] at h
+    simp only at h
+    by_cases h28 : ver = .v11 ∧ c = 0x2028
+    · rw [if_pos h28] at h
+      cases hf : fNCR e c with
+      | error er => rw [hf] at h; cases h
+      | ok a => rw [hf] at h; simp only [pure, Except.pure] at h; injection h with h; injection h with _ h2; cases h2
+    · rw [if_neg h28] at h; exact wCP_two e false c rest it h
 
 theorem escLoop_forbidden (ver : Ver) (e : Enc) (sp : Nat → Bool) (esc : Nat → Out)
     (hspF : ∀ c, pForbidden ver c = true → sp c = true)
